@@ -167,14 +167,14 @@ func init() {
 		Assumptions: append([]string{"grey URL spellings (+5, 0x10, T, inf, leading spaces) are generated but only checked for no panic / no 5xx", "repeated occurrences of a singular query parameter are not generated (first/last-wins is undocumented)"}, commonAssumptions...)})
 	registerRuntime(&runtimeCheck{ID: "C09", Profile: schema.ProfileHeaders, Inner: []string{"c09", "c09ts"}, Prefix: "h", Variant: "server", Prepare: prepareTS,
 		Batches: [2]int{1, 10}, PerBatch: [2]int{64, 64}, Cases: [2]int{250, 800},
-		Rule:        "cases = (schema with service- and method-level header declarations: required/optional x type {string,integer,number,boolean,array,unset} x format {uuid,email,date-time,date,time,unset}, overriding) x RPC x header value set (absent, empty, must-accept, must-reject per type/format incl. non-UTF-8, grey) x body valid / undecodable. Oracle = reference header validator H with documented merge semantics: dispatch iff every required header is in its must-accept set, else 400 with exactly one violation per offending header even when the body is undecodable; grey values only judged for no-5xx. Non-trivial = a required header with a format or non-string type, an override, or >= 2 offending headers; distinct by (request line, header set).",
+		Rule:        "cases = (schema with service- and method-level header declarations: required/optional x type {string,integer,number,boolean,array,unset} x format {uuid,email,date-time,date,time,unset}, overriding) x RPC x header value set (absent, empty, must-accept, must-reject per type/format incl. non-UTF-8, grey) x body valid / undecodable. Oracle = reference header validator H with documented merge semantics: dispatch iff every required header is in its must-accept set, else 400 with exactly one violation per offending header even when the body is undecodable; grey values only judged for no-5xx; one case in five is a request written from the published OpenAPI header parameters alone (required ones with well-formed values, no others), which must be dispatched. Non-trivial = a required header with a format or non-string type, an override, or >= 2 offending headers; distinct by (request line, header set).",
 		Assumptions: append([]string{"must-accept / must-reject sets come from RFC 4122, RFC 3339 and sebuf's documentation (time = HH:MM:SS); everything else is grey", "service/method declarations whose names differ only in case are skipped (override semantics undocumented)"}, commonAssumptions...)})
 	registerRuntime(&runtimeCheck{ID: "C10", Profile: schema.ProfileErrors, Inner: []string{"c10", "c10ts", "c10tssrv"}, Prefix: "e", Prepare: prepareTS,
 		Second: &runtimeCheck{Profile: schema.ProfileServerTransport, Inner: []string{"c10url"}, Prefix: "q", Variant: "server",
 			Batches: [2]int{1, 6}, PerBatch: [2]int{48, 64}, Cases: [2]int{100, 400},
 			Rule: "server-only schemas with path variables and (repeated, renamed) query parameters x raw requests carrying exactly one unconvertible URL value or lacking a required query parameter; oracle: 400 ValidationError in the request's content type whose violation names the proto field (not the parameter name)"},
 		Batches: [2]int{1, 10}, PerBatch: [2]int{48, 64}, Cases: [2]int{250, 800},
-		Rule:        "cases = (schema with buf.validate rules on top-level, nested, repeated and map-value fields, required headers, custom *Error messages) x RPC x error source {header violation, rule violation, plain error, sebuf Error, wrapped sebuf Error, handler-returned ValidationError, custom *Error message (+wrapped)} x content type {JSON, binary} x error hook {none, returns nil, returns message, sets status, sets header, writes body, combinations}; the call goes through the generated Go client. Oracle = documented error contract E: status, hook header, body decoded in the request's content type (message equality / violation field names = dotted proto paths or header names computed by the reference validator), and client error type (errors.As ValidationError / Error, or an error carrying status or body). Non-trivial = a hook is installed, binary content type, or a nested violation path; distinct by (case, wire body).",
+		Rule:        "cases = (schema with buf.validate rules on top-level, nested, repeated and map-value fields, required headers, custom *Error messages) x RPC x error source {header violation, rule violation, plain error, sebuf Error, wrapped sebuf Error, handler-returned ValidationError, custom *Error message (+wrapped)} x content type {JSON, binary} x error hook {none, returns nil, returns message, sets status, sets header, writes body, combinations}; the call goes through the generated Go client; the emitted TypeScript server is driven over raw HTTP with handler Errors (500 {message}), handler ValidationErrors (400, same violations), missing required headers (400, one violation each, no dispatch) and an onError hook. Oracle = documented error contract E: status, hook header, body decoded in the request's content type (message equality / violation field names = dotted proto paths or header names computed by the reference validator), and client error type (errors.As ValidationError / Error, or an error carrying status or body). Non-trivial = a hook is installed, binary content type, or a nested violation path; distinct by (case, wire body).",
 		Assumptions: append([]string{"rule violations come from the stand-in validator (standard-rule subset); subscripts in field paths are ignored when comparing"}, commonAssumptions...)})
 	registerRuntime(&runtimeCheck{ID: "C11", Profile: schema.ProfileCodec, Inner: []string{"c11", "c11client", "c11ts"}, Prefix: "f", Prepare: prepareTS, ServerOnlyEvery: 4,
 		Batches: [2]int{1, 12}, PerBatch: [2]int{128, 64}, Cases: [2]int{200, 1000},
